@@ -247,6 +247,8 @@ def obspy_clause(cl, rng, n, replay):
             chan_sets = [("HHN", "HHE", "HHZ"), ("BHN", "BHE", "BHZ"), ("EHN", "EHE", "EHZ"), ("HNN", "HNE", "HNZ")]
             chans = chan_sets[j % 4]
             data = {c: rng.normal(0, 1000, npts).astype(np.float32 if j % 2 else np.float64) for c in chans}
+            if j % 5 == 4:       # integer counts with a large offset (beyond what single precision holds exactly); SAC stores single precision anyway
+                data = {c: (rng.integers(-5000, 5000, npts) + int(rng.choice([20_000_000, -33_554_433, 16_777_217]))).astype(np.int32) for c in chans}
             order = PERMS[j % 6]
             traces = [obspy.Trace(data=data[chans[o]].copy(), header=dict(channel=chans[o], station="ST", network="NW", sampling_rate=fs)) for o in order]
             fmt = ["mseed1", "mseed3", "sac_little", "sac_big", "sac_mixed"][(j // 2) % 5]       # sac_mixed: the three files differ in byte order
@@ -331,7 +333,9 @@ def read_args_clause(cl, rng, n, replay):
             fns.append(fn)
         combos = [(None, None), (15.0, None), ([5.0, 6.0, 7.0], None), (None, {"format": "MSEED"}), (20, [{"format": "MSEED"}] * 3),
                   ([1.0, 2.0, 3.0], [{"format": "MSEED"}, None, {"format": "SAC"}]), ((4.0, 5.0, 6.0), None), (np.array([7.0, 8.0, 9.0]), None),
-                  (np.float64(3.5), None), (0, None), ([0, 0, 0], None)]
+                  (np.float64(3.5), None), (0, None), ([0, 0, 0], None),
+                  # per recording, some entries None: those recordings keep the orientation their file states (NORTH_ROT here), the others get their number
+                  ([None, 6.0, None], None), ((2.5, None, 0.0), [None, {"format": "MSEED"}, None]), ([None, None, None], None)]
         for j, (deg, kw) in enumerate(combos):
             for wrap in (True, False):
                 try:
@@ -344,7 +348,8 @@ def read_args_clause(cl, rng, n, replay):
                     cl.fail("hvsrpy.data_wrangler.read", "number of recordings", signature="read:count")
                     return
                 for k, r in enumerate(out):
-                    want = (10.0 * (k + 1)) if deg is None else (float(deg[k]) if np.ndim(deg) else float(deg))
+                    mine = deg if (deg is None or not isinstance(deg, (list, tuple, np.ndarray))) else deg[k]
+                    want = (10.0 * (k + 1)) if mine is None else float(mine)
                     if abs(r.degrees_from_north - want) > 1e-12 or r.ns.n_samples != 5 + k:
                         cl.fail("hvsrpy.data_wrangler.read", f"recording {k} got degrees_from_north={r.degrees_from_north}, expected {want} (argument {deg!r}, kwargs {kw!r})",
                                 signature="read:degrees", argument=repr(deg), kwargs=repr(kw))
@@ -362,7 +367,7 @@ CLAUSES = [
      "3-30 samples per file", "hvsrpy.data_wrangler._read_peer", (72, 1500), peer_clause),
     ("bounded:miniSEED (1 and 3 files) and SAC (both byte orders) written with obspy in all 6 trace/file orders; GCF example; unrecognised file", "bounded",
      "10-200 samples, 4 channel-naming variants", "hvsrpy.data_wrangler._arrange_traces", (24, 480), obspy_clause),
-    ("bounded:read() hands every recording its own degrees_from_north / reader options (scalar, list, tuple, array, numpy scalar, 0)", "bounded", "11 argument combinations x wrapped/unwrapped names",
+    ("bounded:read() hands every recording its own degrees_from_north / reader options (scalar, list, tuple, array, numpy scalar, 0)", "bounded", "14 argument combinations (per-recording lists with None entries included) x wrapped/unwrapped names",
      "hvsrpy.data_wrangler.read", (1, 1), read_args_clause),
 ]
 
